@@ -99,6 +99,37 @@ pub fn family(quick: bool) -> Vec<OpeningHoursExpression> {
             }
         }
     }
+    // three rules with straddling weekday sets and distinct hours, kinds and comments: shapes whose
+    // normal form has three rules where the middle one covers days of the first plus new days and
+    // the last one only the new days (an agent's change to `canonical_to_seq` needed exactly that)
+    {
+        let mods = al::modifiers();
+        let d = |a, b| DaySelector { weekday: vec![wd(a, b)], ..Default::default() };
+        let t = |h1, h2| vec![span(tfix(h1, 0), tfix(h2, 0))];
+        let small: Vec<RuleSequence> = vec![
+            al::mk_rule(&d(Mon, Mon), &t(10, 12), &mods[0]),
+            al::mk_rule(&d(Mon, Tue), &t(14, 16), &mods[2]),
+            al::mk_rule(&d(Tue, Tue), &t(18, 20), &mods[2]),
+            al::mk_rule(&d(Mon, Tue), &t(14, 16), &mods[3]),
+            al::mk_rule(&d(Tue, Wed), &t(11, 15), &mods[0]),
+            al::mk_rule(&d(Mon, Wed), &[], &mods[1]),
+            al::mk_rule(&DaySelector { monthday: vec![md_month(1, 2, None)], ..Default::default() }, &t(8, 9), &mods[0]),
+            al::mk_rule(&DaySelector { monthday: vec![md_month(2, 3, None)], ..Default::default() }, &t(12, 13), &mods[5]),
+            al::mk_rule(&DaySelector { monthday: vec![md_month(3, 3, None)], ..Default::default() }, &t(17, 19), &mods[2]),
+            al::mk_rule(&DaySelector::default(), &t(6, 7), &mods[0]),
+        ];
+        for a in &small {
+            for b in &small {
+                for c in &small {
+                    for op1 in al::OPERATORS {
+                        for op2 in al::OPERATORS {
+                            out.push(expr(vec![a.clone(), with_op(b.clone(), op1), with_op(c.clone(), op2)]));
+                        }
+                    }
+                }
+            }
+        }
+    }
     if !quick {
         // three rules: a reduced set (every third rule) in all orders and separator pairs
         let r3: Vec<&RuleSequence> = r.iter().step_by(4).collect();
